@@ -131,5 +131,189 @@ theorem cv64_toNat (e : Enc) (bs : Bytes) (h : bs.length = 8) :
   rw [← rdField_eq e bs (by omega)]
   simp [rdField, conv, h, cv64]
 
+/-! ### the modinfo parser -/
+
+theorem takeWhile_stop (s : UInt8) (x r : Bytes) (hx : ∀ c ∈ x, c ≠ s) :
+    (x ++ s :: r).takeWhile (· ≠ s) = x := by
+  induction x with
+  | nil => simp
+  | cons c x ih =>
+    have hc : c ≠ s := hx c (by simp)
+    simp only [List.cons_append, List.takeWhile_cons, hc, ne_eq, not_false_eq_true, decide_true, if_true]
+    rw [ih (fun d hd => hx d (by simp [hd]))]
+
+theorem slice_at (pre : Bytes) (c : UInt8) (r : Bytes) : slice (pre ++ c :: r) pre.length 1 = [c] := by
+  simp [slice]
+
+theorem cstr_spec (site : String) (pre x r : Bytes) (hx : ∀ c ∈ x, c ≠ 0) :
+    Modinfo.cstr site (some (pre ++ (x ++ 0 :: r))) pre.length = .ok x := by
+  simp only [Modinfo.cstr, List.drop_left' rfl]
+  rw [takeWhile_stop 0 x r hx]
+  simp [pure, Except.pure]
+
+theorem splitRecord_spec (f v : Bytes) (hf : ∀ c ∈ f, c ≠ 61) (hl : f.length + 1 < 18446744073709551616) :
+    Modinfo.splitRecord (f ++ 61 :: v) = (f, v) := by
+  have h1 : (f ++ 61 :: v).takeWhile (· ≠ 61) = f := takeWhile_stop 61 f v hf
+  have hloc : Modinfo.findEq (f ++ 61 :: v) = BitVec.ofNat 64 f.length := by
+    simp only [Modinfo.findEq]; rw [h1]; simp
+  have ht : (BitVec.ofNat 64 f.length).toNat = f.length := by
+    simp only [BitVec.toNat_ofNat, Nat.reducePow]; omega
+  have hs : (mod_value_start (BitVec.ofNat 64 f.length)).toNat = f.length + 1 := by
+    simp only [mod_value_start, BitVec.toNat_add, ht]
+    simp
+    omega
+  simp only [Modinfo.splitRecord, hloc, ht, hs]
+  simp
+
+theorem ofNat_toNat64 (i : BitVec 64) : BitVec.ofNat 64 i.toNat = i := by simp
+
+/-- `skipNul` runs over a run of `z` NUL bytes and stops at the end of the section or at the first
+    non-NUL byte -/
+theorem skipNul_spec (z : Nat) : ∀ (pre tl ext : Bytes) (size i : BitVec 64) (fuel : Nat),
+    size.toNat = pre.length + z + tl.length → i.toNat = pre.length →
+    (tl = [] ∨ ∃ c tl', tl = c :: tl' ∧ c ≠ 0) → z < fuel →
+    Modinfo.skipNul (some (pre ++ (List.replicate z 0 ++ (tl ++ ext)))) size fuel i
+      = .ok (BitVec.ofNat 64 (pre.length + z)) := by
+  induction z with
+  | zero =>
+    intro pre tl ext size i fuel hs hi htl hf
+    obtain ⟨f, rfl⟩ : ∃ f, fuel = f + 1 := ⟨fuel - 1, by omega⟩
+    have hsz := size.isLt
+    simp only [Nat.reducePow] at hsz
+    rcases htl with rfl | ⟨c, tl', rfl, hc⟩
+    · have hcond : mod_loop_cond i size = false := by
+        simp only [mod_loop_cond, BitVec.ult, decide_eq_false_iff_not]; simp at hs; omega
+      simp only [Modinfo.skipNul, hcond, Bool.false_eq_true, if_false, pure, Except.pure, Nat.add_zero]
+      rw [← hi, ofNat_toNat64]
+    · have hcond : mod_loop_cond i size = true := by
+        simp only [mod_loop_cond, BitVec.ult, decide_eq_true_eq]; simp at hs; omega
+      have hr : rdRange "modinfo/skip" (some (pre ++ (List.replicate 0 0 ++ (c :: tl' ++ ext)))) i.toNat 1
+          = .ok [c] := by
+        rw [rdRange_some_ok (by simp; omega), hi]
+        simpa using slice_at pre c (tl' ++ ext)
+      simp only [Modinfo.skipNul, hcond, if_true, hr, bind, Except.bind, pure, Except.pure, Nat.add_zero]
+      have : ([c] = [(0 : UInt8)]) = False := by simp [hc]
+      simp only [this, if_false]
+      rw [← hi, ofNat_toNat64]
+  | succ z ih =>
+    intro pre tl ext size i fuel hs hi htl hf
+    obtain ⟨f, rfl⟩ : ∃ f, fuel = f + 1 := ⟨fuel - 1, by omega⟩
+    have hsz := size.isLt
+    simp only [Nat.reducePow] at hsz
+    have hcond : mod_loop_cond i size = true := by
+      simp only [mod_loop_cond, BitVec.ult, decide_eq_true_eq]; omega
+    have hr : rdRange "modinfo/skip" (some (pre ++ (List.replicate (z + 1) 0 ++ (tl ++ ext)))) i.toNat 1
+        = .ok [0] := by
+      rw [rdRange_some_ok (by simp; omega), hi]
+      simpa [List.replicate_succ] using slice_at pre 0 (List.replicate z 0 ++ (tl ++ ext))
+    simp only [Modinfo.skipNul, hcond, if_true, hr, bind, Except.bind, pure, Except.pure]
+    have hi1 : (i + 1).toNat = (pre ++ [0]).length := by
+      have h1 : (1 : BitVec 64).toNat = 1 := rfl
+      simp only [BitVec.toNat_add, h1, List.length_append, List.length_cons, List.length_nil, Nat.reducePow]
+      omega
+    have := ih (pre ++ [0]) tl ext size (i + 1) f (by simp; omega) hi1 htl (by omega)
+    simp only [List.replicate_succ, List.append_assoc, List.cons_append, List.nil_append,
+      List.length_append, List.length_cons, List.length_nil] at this ⊢
+    rw [this]
+    congr 2; omega
+
+theorem encodeModinfo_length_ge (as : List Modinfo.Attr) : as.length ≤ (Spec.encodeModinfo as).length := by
+  induction as with
+  | nil => simp [Spec.encodeModinfo]
+  | cons a as ih => simp [Spec.encodeModinfo, Spec.encodeAttr]; omega
+
+/-- the outer loop on a buffer `pre ++ zeros ++ records ++ ext` (section = everything but `ext`)
+    appends exactly the records -/
+theorem parseLoop_spec (rest : List Modinfo.Attr) : ∀ (pre ext : Bytes) (z : Nat) (size i : BitVec 64)
+    (acc : List Modinfo.Attr) (fuel : Nat),
+    size.toNat = pre.length + z + (Spec.encodeModinfo rest).length → i.toNat = pre.length →
+    (∀ a ∈ rest, Spec.AttrOk a) → rest.length + 2 ≤ fuel →
+    Modinfo.parseLoop (some (pre ++ (List.replicate z 0 ++ (Spec.encodeModinfo rest ++ ext)))) size fuel i acc
+      = .ok (acc ++ rest) := by
+  induction rest with
+  | nil =>
+    intro pre ext z size i acc fuel hs hi _ hf
+    obtain ⟨f, rfl⟩ : ∃ f, fuel = f + 2 := ⟨fuel - 2, by omega⟩
+    have hsz := size.isLt
+    simp only [Nat.reducePow, Spec.encodeModinfo, List.length_nil, Nat.add_zero] at hsz hs
+    by_cases hz : z = 0
+    · have hcond : mod_loop_cond i size = false := by
+        simp only [mod_loop_cond, BitVec.ult, decide_eq_false_iff_not]; omega
+      simp [Modinfo.parseLoop, hcond, pure, Except.pure]
+    · have hcond : mod_loop_cond i size = true := by
+        simp only [mod_loop_cond, BitVec.ult, decide_eq_true_eq]; omega
+      have hsk := skipNul_spec z pre [] ext size i (size.toNat + 1) (by simpa using hs) hi (Or.inl rfl) (by omega)
+      have hend : (BitVec.ofNat 64 (pre.length + z)).toNat = size.toNat := by
+        simp only [BitVec.toNat_ofNat, Nat.reducePow]; omega
+      have hrec : mod_rec_cond (BitVec.ofNat 64 (pre.length + z)) size = false := by
+        simp only [mod_rec_cond, BitVec.ult, decide_eq_false_iff_not]; omega
+      have hcond2 : mod_loop_cond (BitVec.ofNat 64 (pre.length + z)) size = false := by
+        simp only [mod_loop_cond, BitVec.ult, decide_eq_false_iff_not]; omega
+      simp only [Spec.encodeModinfo] at hsk ⊢
+      simp only [Modinfo.parseLoop, hcond, if_true, hsk, bind, Except.bind, hrec, Bool.false_eq_true, if_false,
+        hcond2, pure, Except.pure, List.append_nil]
+  | cons a rest ih =>
+    intro pre ext z size i acc fuel hs hi hok hf
+    obtain ⟨f, rfl⟩ : ∃ f, fuel = f + 1 := ⟨fuel - 1, by omega⟩
+    obtain ⟨fld, val⟩ := a
+    have hsz := size.isLt
+    have hokA : Spec.AttrOk (fld, val) := hok _ (by simp)
+    obtain ⟨hfld, hval⟩ := hokA
+    simp only [Nat.reducePow] at hsz
+    have hrecl : (Spec.encodeModinfo ((fld, val) :: rest)).length
+        = fld.length + 1 + val.length + 1 + (Spec.encodeModinfo rest).length := by
+      simp [Spec.encodeModinfo, Spec.encodeAttr]; omega
+    rw [hrecl] at hs
+    have hcond : mod_loop_cond i size = true := by
+      simp only [mod_loop_cond, BitVec.ult, decide_eq_true_eq]; omega
+    -- the record starts with a non-NUL byte
+    have hhead : ∃ c tl', Spec.encodeModinfo ((fld, val) :: rest) = c :: tl' ∧ c ≠ 0 := by
+      cases fld with
+      | nil => exact ⟨61, val ++ 0 :: Spec.encodeModinfo rest,
+                      by simp [Spec.encodeModinfo, Spec.encodeAttr, Spec.eqSign], by decide⟩
+      | cons c fl => exact ⟨c, fl ++ 61 :: (val ++ 0 :: Spec.encodeModinfo rest),
+                      by simp [Spec.encodeModinfo, Spec.encodeAttr, Spec.eqSign], (hfld c (by simp)).2⟩
+    have hsk := skipNul_spec z pre (Spec.encodeModinfo ((fld, val) :: rest)) ext size i (size.toNat + 1)
+      (by rw [hrecl]; omega) hi (Or.inr hhead) (by omega)
+    have hi' : (BitVec.ofNat 64 (pre.length + z)).toNat = pre.length + z := by
+      simp only [BitVec.toNat_ofNat, Nat.reducePow]; omega
+    have hrec : mod_rec_cond (BitVec.ofNat 64 (pre.length + z)) size = true := by
+      simp only [mod_rec_cond, BitVec.ult, decide_eq_true_eq]; omega
+    -- the C string at the record start is `field=value`
+    have hbuf : pre ++ (List.replicate z 0 ++ (Spec.encodeModinfo ((fld, val) :: rest) ++ ext))
+        = (pre ++ List.replicate z 0) ++ ((fld ++ 61 :: val) ++ 0 :: (Spec.encodeModinfo rest ++ ext)) := by
+      simp [Spec.encodeModinfo, Spec.encodeAttr, Spec.eqSign]
+    have hinfo0 : ∀ c ∈ fld ++ 61 :: val, c ≠ 0 := by
+      intro c hc
+      simp only [List.mem_append, List.mem_cons] at hc
+      rcases hc with h | rfl | h
+      · exact (hfld c h).2
+      · decide
+      · exact hval c h
+    have hcs := cstr_spec "modinfo/record" (pre ++ List.replicate z 0) (fld ++ 61 :: val)
+      (Spec.encodeModinfo rest ++ ext) hinfo0
+    simp only [List.length_append, List.length_replicate] at hcs
+    have hsplit := splitRecord_spec fld val (fun c hc => (hfld c hc).1) (by omega)
+    -- after the record, `i` points at its terminator: one NUL to skip, then the remaining records
+    have hbuf2 : pre ++ (List.replicate z 0 ++ (Spec.encodeModinfo ((fld, val) :: rest) ++ ext))
+        = (pre ++ List.replicate z 0 ++ (fld ++ 61 :: val)) ++
+          (List.replicate 1 0 ++ (Spec.encodeModinfo rest ++ ext)) := by
+      simp [Spec.encodeModinfo, Spec.encodeAttr, Spec.eqSign]
+    have hadv : (mod_advance (BitVec.ofNat 64 (pre.length + z))
+        (BitVec.ofNat 64 (fld ++ 61 :: val).length)).toNat
+        = (pre ++ List.replicate z 0 ++ (fld ++ 61 :: val)).length := by
+      simp only [mod_advance, BitVec.toNat_add, BitVec.toNat_ofNat, List.length_append, List.length_cons,
+        List.length_replicate, Nat.reducePow]
+      omega
+    have := ih (pre ++ List.replicate z 0 ++ (fld ++ 61 :: val)) ext 1 size _ (acc ++ [(fld, val)]) f
+      (by simp only [List.length_append, List.length_cons, List.length_replicate]; omega) hadv
+      (fun a ha => hok a (by simp [ha])) (by simp at hf; omega)
+    rw [← hbuf2] at this
+    simp only [Modinfo.parseLoop, hcond, if_true, hsk, bind, Except.bind, hrec, hi']
+    rw [hbuf, hcs]
+    simp only [hsplit]
+    rw [← hbuf, this]
+    simp
+
 end C14
 end ElfioVerif
